@@ -597,6 +597,11 @@ class Scheduler:
             self.previous_profile_point = 0
             self.count = 0
 
+        # Record the initial task pool now, so that a restart has something
+        # to load if the scheduler dies before the first main loop iteration
+        # completes (otherwise the workflow would appear to have finished).
+        self.workflow_db_mgr.put_task_event_timers(self.task_events_mgr)
+        self.workflow_db_mgr.put_task_pool(self.pool)
         self.process_workflow_db_queue()
 
         self.profiler.log_memory("scheduler.py: end configure")
